@@ -267,3 +267,24 @@ pub async fn refresh_x<C: Config>(s: &mut qbice::InputSession<C>) {
 }
 
 pub fn style_of(p: &Program, j: u8) -> Style { p.nodes[j as usize].style }
+
+
+/// (stable type id, key hash) of the query behind `k` — the identity the
+/// engine uses (same seeded hasher as the engines built here).
+pub fn query_id_of(p: &Program, k: Key) -> (u128, u128) {
+    use qbice::stable_hash::{BuildStableHasher, StableHash, StableHasher};
+    fn one<Q: qbice::Query>(q: &Q) -> (u128, u128) {
+        let mut h = SeededStableHasherBuilder::<Sip128Hasher>::new(SEED).build_stable_hasher();
+        q.stable_hash(&mut h);
+        (Q::STABLE_TYPE_ID.as_u128(), h.finish())
+    }
+    match k {
+        Key::In(i) => one(&pq::QIn(i)),
+        Key::X(i) => one(&pq::QX(i)),
+        Key::C(j) => match p.nodes[j as usize].style {
+            pq::Style::N => one(&pq::QN(j)),
+            pq::Style::F => one(&pq::QF(j)),
+            pq::Style::P => one(&pq::QP(j)),
+        },
+    }
+}
